@@ -3,7 +3,15 @@
 Times are multiples of 0.25 s (exactly representable, float arithmetic on them is exact), written for the Lean
 driver as integers in quarter seconds.  Tokens (see lean/FeVerif/Driver/TimeRange.lean):
   bound: N | <int> | inf | T<int> | TX      ctor: start,end,absolute(N/0/1),t0(N/<int>)
-  event: b | u | s | n | <int> | R, message tokens optionally prefixed with t (return_timestamps=True)
+  event: b | u | s | n | <int> | m<src>.<mt>.<p1> | p<p1>.<sys> | R, message tokens optionally prefixed with t
+         (return_timestamps=True).  The m and p forms describe a message by its MEMBERS: m = a sensor measurement with
+         details.measurement_time_source <src> (0 INVALID, 1 P1_TIME, 2 TIMESTAMPED_ON_RECEPTION, 3 SENDER_SYSTEM_TIME,
+         4 GPS_TIME), details.measurement_time <mt> and details.p1_time <p1> (N = invalid Timestamp); p = any other
+         payload with p1_time member <p1> (A none, X invalid Timestamp) and system_time_ns member <sys> (A none, else ns).
+         Every token is turned into a real object of the package: each of the payload classes of that kind in turn
+         (all classes embedding MeasurementDetails for m, all classes with a p1_time / system_time_ns member / neither
+         for p), directly built or decoded from its packed form.  Whether the specification treats a message as
+         P1-timed is decided from the members, as documented (doc_p1()), never from get_p1_time().
 
 The harness writes the same values in every spelling the constructor accepts (the driver and the specification are
 given the value, never the spelling):
@@ -21,6 +29,7 @@ import itertools
 import json
 import math
 import re
+import zlib
 
 import fv
 
@@ -28,52 +37,286 @@ MODULES = ['FeVerif.Props.C13']
 Q = 0.25
 
 _msg_cache = {}
+SRC_NAMES = {0: 'INVALID', 1: 'P1_TIME', 2: 'TIMESTAMPED_ON_RECEPTION', 3: 'SENDER_SYSTEM_TIME', 4: 'GPS_TIME'}
+OTHER_TIME = 123.25     # put into members that are neither P1 nor system time (gps_time), where the class has them
+
+
+def _catalogue():
+    """The payload classes of the package by the time members their objects have (looked up on a default-constructed
+    object, not through the accessors): 'meas' embeds MeasurementDetails, 'p1' has a p1_time Timestamp member, 'sys' a
+    system_time_ns member, 'none' neither."""
+    c = _msg_cache
+    if 'classes' not in c:
+        from fusion_engine_client.messages import message_type_to_class, MeasurementDetails, SystemTimeSource, Timestamp
+        from fusion_engine_client.messages.defs import MessagePayload
+        kinds = {'meas': [], 'p1': [], 'sys': [], 'none': []}
+        seen = set()
+
+        def walk(cls):
+            for sub in cls.__subclasses__():
+                if sub not in seen:
+                    seen.add(sub)
+                    walk(sub)
+        walk(MessagePayload)
+        seen |= set(message_type_to_class.values())
+        for cls in sorted(seen, key=lambda k: k.__name__):
+            if not cls.__module__.startswith('fusion_engine_client.'):
+                continue
+            try:
+                m = cls()
+            except Exception:  # noqa
+                continue
+            members = vars(m)
+            if isinstance(members.get('details'), MeasurementDetails):
+                kinds['meas'].append(cls)
+            elif isinstance(members.get('p1_time'), Timestamp):
+                kinds['p1'].append(cls)
+            elif 'system_time_ns' in members:
+                kinds['sys'].append(cls)
+            elif not any('time' in k for k in members):
+                kinds['none'].append(cls)
+        for k, v in kinds.items():
+            if not v:
+                raise fv.InfraError('no payload class of kind %r found in the package' % k)
+        c['classes'] = kinds
+        c['Timestamp'] = Timestamp
+        c['Src'] = SystemTimeSource
+        c['objects'] = {}
+    return c
 
 
 def _messages():
-    if not _msg_cache:
-        from fusion_engine_client.messages import (EventNotificationMessage, IMUInput, PoseMessage, ResetRequest,
-                                                   SystemTimeSource, Timestamp)
-        ev = EventNotificationMessage()
-        ev.system_time_ns = 3000000000
-        imu_invalid = IMUInput()
-        _msg_cache['b'] = [b'\x2e\x31\x00\x00', None]
-        _msg_cache['u'] = [ResetRequest()]
-        _msg_cache['s'] = [ev]
-        _msg_cache['n'] = [PoseMessage(), imu_invalid]
-        _msg_cache['Timestamp'] = Timestamp
-        _msg_cache['mk'] = (PoseMessage, IMUInput, SystemTimeSource)
-    return _msg_cache
+    return _catalogue()
 
 
-def timed_message(q, variant):
-    c = _messages()
-    key = ('p', q, variant % 3)
-    if key not in c:
-        Pose, IMU, Src = c['mk']
-        Timestamp = c['Timestamp']
-        if variant % 3 == 0:
-            m = Pose()
-            m.p1_time = Timestamp(q * Q)
-        elif variant % 3 == 1:      # P1 time carried in MeasurementDetails.p1_time
-            m = IMU()
-            m.details.p1_time = Timestamp(q * Q)
-            m.details.measurement_time = Timestamp(777.0)
-            m.details.measurement_time_source = Src.TIMESTAMPED_ON_RECEPTION
-        else:                       # measurement time is the P1 time
-            m = IMU()
-            m.details.measurement_time = Timestamp(q * Q)
-            m.details.measurement_time_source = Src.P1_TIME
-        c[key] = m
-    return c[key]
+@functools.lru_cache(maxsize=None)
+def parse_tok(tok):
+    """Message token -> ('raw',) | ('meas', src, mt, p1) | ('plain', p1, sys): mt/p1 are None (invalid Timestamp) or
+    quarter seconds; the plain p1 is 'A' (no member / None), None (invalid Timestamp) or quarter seconds; sys 'A' or ns."""
+    if tok == 'b':
+        return ('raw',)
+    if tok == 'u':
+        return ('plain', 'A', 'A')
+    if tok == 's':
+        return ('plain', 'A', 3000000000)
+    if tok == 'n':
+        return ('plain', None, 'A')
+    if tok[0] == 'm':
+        src, mt, p1 = tok[1:].split('.')
+        return ('meas', int(src), None if mt == 'N' else int(mt), None if p1 == 'N' else int(p1))
+    if tok[0] == 'p':
+        p1, sy = tok[1:].split('.')
+        return ('plain', 'A' if p1 == 'A' else None if p1 == 'X' else int(p1), 'A' if sy == 'A' else int(sy))
+    return ('plain', int(tok), 'A')
+
+
+@functools.lru_cache(maxsize=None)
+def doc_p1(tok):
+    """What the documentation says the P1 time of the message is (quarter seconds or None), from its members:
+    the p1_time member; for a sensor measurement details.p1_time ("the P1 time corresponding with the measurement time
+    of applicability, if available"), else details.measurement_time when - and only when - measurement_time_source says
+    that it is in P1 time.  A measurement time stamped on reception, by the sender's clock or in GPS time is no P1 time."""
+    d = parse_tok(tok)
+    if d[0] == 'raw':
+        return None
+    if d[0] == 'plain':
+        return d[1] if isinstance(d[1], int) else None
+    _, src, mt, p1 = d
+    if p1 is not None:
+        return p1
+    return mt if src == 1 else None
+
+
+@functools.lru_cache(maxsize=None)
+def doc_sys_ns(tok):
+    """The documented system time in ns, or None: the system_time_ns member, or a measurement time stamped on reception."""
+    d = parse_tok(tok)
+    if d[0] == 'plain':
+        return None if d[2] == 'A' else float(d[2])
+    if d[0] == 'meas' and d[1] == 2 and d[2] is not None:
+        return d[2] * Q * 1e9
+    return None
+
+
+@functools.lru_cache(maxsize=None)
+def candidates(tok):
+    """None when the members are consistent; else the readings the documentation leaves open (P1 time values / None):
+    measurement_time declared to be P1 time next to a different (or the only valid) details.p1_time."""
+    d = parse_tok(tok)
+    if d[0] == 'meas' and d[1] == 1 and d[3] is not None and d[3] != d[2]:
+        return (d[2], d[3])
+    return None
+
+
+_resolved = {}
+
+
+def p1_reading(tok):
+    """The P1 time the specification is given for the message: the documented one; where the members contradict each
+    other, the reading (among the documented candidates) that get_p1_time() takes - checked in accessor_case()."""
+    c = candidates(tok)
+    if c is None:
+        return doc_p1(tok)
+    if tok not in _resolved:
+        got = real_p1(message_for(tok, 0))
+        _resolved[tok] = got if got in c else c[0]
+    return _resolved[tok]
+
+
+def spec_tok(tok):
+    """The token handed to the Lean specification (which applies Obj.docMsg itself to consistent members)."""
+    if candidates(tok) is None:
+        return tok
+    r = p1_reading(tok)
+    return 'u' if r is None else str(r)
+
+
+def real_p1(m):
+    """get_p1_time() of a real object as quarter seconds, None (None or an invalid Timestamp), or a text if it is odd."""
+    t = m.get_p1_time()
+    if t is None:
+        return None
+    if not isinstance(t, _catalogue()['Timestamp']):
+        return 'not a Timestamp: %r' % (t,)
+    x = float(t)
+    if math.isnan(x):
+        return None
+    v = x * 4
+    return int(v) if v == int(v) else 'inexact(%r)' % x
+
+
+def _stamp(q):
+    Timestamp = _catalogue()['Timestamp']
+    return Timestamp() if q is None else Timestamp(q * Q)
+
+
+@functools.lru_cache(maxsize=None)
+def n_variants(tok):
+    d = parse_tok(tok)
+    c = _catalogue()['classes']
+    if d[0] == 'raw':
+        return 2
+    if d[0] == 'meas':
+        return 2 * len(c['meas'])
+    if d[1] == 'A' and d[2] == 'A':
+        return len(c['none']) + len(c['p1'])
+    if d[1] == 'A':
+        return len(c['sys'])
+    return 2 * len(c['p1']) if d[2] == 'A' else len(c['p1'])
+
+
+def build_message(tok, variant):
+    """A real object of the package with the members the token describes. `variant` walks through the classes of the
+    kind and, for every class, the directly built object and the one decoded from its packed form."""
+    c = _catalogue()
+    Timestamp = c['Timestamp']
+    d = parse_tok(tok)
+    kinds = c['classes']
+    if d[0] == 'raw':
+        return [b'\x2e\x31\x00\x00', None][variant % 2], 'raw'
+    roundtrip = False
+    if d[0] == 'meas':
+        cls = kinds['meas'][variant % len(kinds['meas'])]
+        roundtrip = (variant // len(kinds['meas'])) % 2 == 1
+        m = cls()
+        m.details.measurement_time = _stamp(d[2])
+        m.details.measurement_time_source = c['Src'](d[1])
+        m.details.p1_time = _stamp(d[3])
+    elif d[1] == 'A' and d[2] == 'A':
+        k = variant % (len(kinds['none']) + len(kinds['p1']))
+        if k < len(kinds['none']):
+            m = kinds['none'][k]()
+        else:                               # a P1-timed class whose member was set to None
+            m = kinds['p1'][k - len(kinds['none'])]()
+            m.p1_time = None
+    elif d[1] == 'A':
+        m = kinds['sys'][variant % len(kinds['sys'])]()
+        m.system_time_ns = d[2]
+    else:
+        cls = kinds['p1'][variant % len(kinds['p1'])]
+        roundtrip = d[2] == 'A' and (variant // len(kinds['p1'])) % 2 == 1
+        m = cls()
+        m.p1_time = _stamp(d[1])
+        if d[2] != 'A':
+            m.system_time_ns = d[2]       # an extra member on a P1-timed object
+    if isinstance(vars(m).get('gps_time'), Timestamp):
+        m.gps_time = Timestamp(OTHER_TIME)
+    how = type(m).__name__
+    if roundtrip:
+        try:
+            data = m.pack()
+            m2 = type(m)()
+            m2.unpack(bytes(data), 0)
+            if members_of(m2) == members_of(m):
+                m, how = m2, how + ' decoded from its packed form'
+        except Exception:  # noqa
+            pass        # packing / decoding is the subject of other properties
+    return m, how
+
+
+def members_of(m):
+    """The time members of a real object, as a token-comparable tuple."""
+    c = _catalogue()
+    Timestamp = c['Timestamp']
+
+    def q(t):
+        if t is None:
+            return 'A'
+        x = float(t)
+        return None if math.isnan(x) else x * 4
+    if not hasattr(m, '__dict__'):
+        return ('raw',)
+    v = vars(m)
+    if 'details' in v and hasattr(v['details'], 'measurement_time_source'):
+        dd = v['details']
+        return ('meas', int(dd.measurement_time_source), q(dd.measurement_time), q(dd.p1_time))
+    return ('plain', q(v['p1_time']) if 'p1_time' in v else 'A', v.get('system_time_ns', 'A'))
+
+
+_by_tok = {}
 
 
 def message_for(tok, variant):
-    c = _messages()
-    if tok in ('b', 'u', 's', 'n'):
-        v = c[tok]
-        return v[variant % len(v)]
-    return timed_message(int(tok), variant)
+    lst = _by_tok.get(tok)
+    if lst is None:
+        lst = _by_tok[tok] = [None] * n_variants(tok)
+    k = variant % len(lst)
+    m = lst[k]
+    if m is None:
+        m, how = build_message(tok, k)
+        want = parse_tok(tok)
+        if members_of(m) != want:
+            raise fv.InfraError('harness built %s with members %r for token %s' % (how, members_of(m), tok))
+        _catalogue()['objects'][(tok, k)] = (m, how)
+        lst[k] = (m,)
+        return m
+    return m[0]
+
+
+def describe(tok, variant=None):
+    d = parse_tok(tok)
+    if d[0] == 'raw':
+        return 'raw bytes / None'
+    if d[0] == 'meas':
+        t = 'sensor measurement (details.measurement_time_source=%s, measurement_time=%s, details.p1_time=%s)' % (
+            SRC_NAMES[d[1]], 'invalid' if d[2] is None else '%.2f s' % (d[2] * Q), 'invalid' if d[3] is None else '%.2f s' % (d[3] * Q))
+    else:
+        t = 'payload (p1_time %s, system_time_ns %s)' % (
+            {'A': 'absent/None', None: 'invalid'}.get(d[1], None) or '%.2f s' % (d[1] * Q), 'absent' if d[2] == 'A' else d[2])
+    if variant is not None:
+        message_for(tok, variant)
+        t = _catalogue()['objects'][(tok, variant % n_variants(tok))][1] + ': ' + t
+    return t
+
+
+def messages_unmodified():
+    """Every object built so far still has the members of its token (is_in_range must not write to a message; the
+    range keeps a reference to the first P1 Timestamp as its origin)."""
+    bad = []
+    for (tok, k), (m, how) in _catalogue()['objects'].items():
+        if members_of(m) != parse_tok(tok):
+            bad.append((tok, k, how, members_of(m)))
+    return bad
 
 
 _BOUND = re.compile(r'^(T|i|g|h|j|)(-?\d+|inf)$')
@@ -257,30 +500,88 @@ def state_str(r):
                      '1' if r._in_range_ended else '0'])
 
 
+def variant_base(events):
+    """Which class / construction each message of a sequence is given: a function of the sequence (so that a replay
+    builds the same objects) that walks through all of them over a run."""
+    return zlib.crc32(','.join(events).encode())
+
+
+@functools.lru_cache(maxsize=None)
+def split_ev(ev):
+    """event -> (return_timestamps, message token, explicit variant or None): `t<token>#<k>`."""
+    ret_ts = ev.startswith('t')
+    tok = ev[1:] if ret_ts else ev
+    k = None
+    if '#' in tok:
+        tok, k = tok.split('#')
+        k = int(k)
+    return ret_ts, tok, k
+
+
+def bare(ev):
+    return split_ev(ev)[1]
+
+
+def dev(ev):
+    """The event as the driver is given it (which object carries the members is not its business)."""
+    return ev if '#' not in ev else ev.split('#')[0]
+
+
+def check_timestamps(tok, res):
+    """The tuple of return_timestamps=True: the result, "the P1 Timestamp extracted from the message if applicable, or
+    None otherwise" and "the system timestamp (in ns) ... if applicable, or None otherwise". Returns a text or None."""
+    if not (isinstance(res, tuple) and len(res) == 3):
+        return 'return_timestamps=True did not return a 3-tuple'
+    want = p1_reading(tok)
+    p1 = res[1]
+    if p1 is not None and not isinstance(p1, _catalogue()['Timestamp']):
+        return 'return_timestamps=True: the P1 time is %r' % (p1,)
+    got = None if p1 is None or math.isnan(float(p1)) else float(p1) * 4
+    if got != want:
+        return 'return_timestamps=True: P1 time %s returned for a %s, whose P1 time is %s (quarter seconds)' % (got, describe(tok), want)
+    sy = res[2]
+    wsys = doc_sys_ns(tok)
+    gsys = None if sy is None or (isinstance(sy, float) and math.isnan(sy)) else float(sy)
+    if gsys != wsys:
+        return 'return_timestamps=True: system time %r ns returned for a %s, whose system time is %r' % (sy, describe(tok), wsys)
+    return None
+
+
 def run_real(r, events):
     """Apply events to the real object. Returns (string of 0/1/r, error or None)."""
     out = []
-    n = len(events)
+    base = variant_base(events)
     for i, ev in enumerate(events):
         if ev == 'R':
             r.restart()
             out.append('r')
             continue
-        ret_ts = ev.startswith('t')
-        tok = ev[1:] if ret_ts else ev
-        m = message_for(tok, i + n)
+        ret_ts, tok, k = split_ev(ev)
+        m = message_for(tok, base + i if k is None else k)
         try:
             res = r.is_in_range(m, return_timestamps=True) if ret_ts else r.is_in_range(m)
         except Exception as e:  # noqa
             return ''.join(out), '%s: %s' % (type(e).__name__, e)
         if ret_ts:
-            if not (isinstance(res, tuple) and len(res) == 3):
-                return ''.join(out), 'return_timestamps=True did not return a 3-tuple'
+            bad = check_timestamps(tok, res)
+            if bad:
+                return ''.join(out), bad
             res = res[0]
         if not isinstance(res, bool):
             return ''.join(out), 'is_in_range returned %r' % (res,)
         out.append('1' if res else '0')
     return ''.join(out), None
+
+
+def err_sig(err):
+    return 'C13/is_in_range/returned-timestamps' if err.startswith('return_timestamps=True: ') else 'C13/is_in_range/raised'
+
+
+def objects_text(events):
+    """The real objects a sequence was run on, for the report."""
+    base = variant_base(events)
+    return '; '.join('%s = %s' % (bare(ev), describe(bare(ev), base + i if split_ev(ev)[2] is None else split_ev(ev)[2]))
+                     for i, ev in enumerate(events) if ev != 'R' and bare(ev)[0] in 'mp')
 
 
 # ---- the property, restated for the harness (independent of the Lean model) ----------------------------------
@@ -303,8 +604,13 @@ def expected_interval(ctor):
 
 
 def p1_of(tok):
-    tok = tok[1:] if tok.startswith('t') else tok
-    return None if tok in ('b', 'u', 's', 'n') else int(tok)
+    """The P1 time (quarter seconds) the specification sees in the message, None for a message without."""
+    tok = bare(tok)
+    if tok in ('b', 'u', 's', 'n'):
+        return None
+    if tok[0] in 'mp':
+        return p1_reading(tok)
+    return int(tok)
 
 
 def segments(events):
@@ -313,7 +619,7 @@ def segments(events):
         if ev == 'R':
             segs.append([])
         else:
-            segs[-1].append(ev[1:] if ev.startswith('t') else ev)
+            segs[-1].append(spec_tok(bare(ev)))
     return segs
 
 
@@ -369,11 +675,48 @@ def monotone_seqs(maxlen, grid):
     return res
 
 
-def concretise(rng, seq, p_ts=0.1):
+# measurement times that are NOT P1 times (system / sender / GPS clock, quarter seconds): before, among and far beyond
+# the P1 times and bounds of the grids (20000 = 5000 s)
+FOREIGN_TIMES = [None, 1, 5, 9, 20, 20000]
+SYS_NS = [0, 3000000000, 5000000000000]
+P_FIELDS = 0.45
+
+
+def untimed_token(rng):
+    """A message without P1 time, by members: a sensor measurement with no details.p1_time whose measurement time is
+    in no / system / sender / GPS time, or a P1-timed one whose times are invalid; a payload with a system time only,
+    with an invalid P1 time, with none."""
+    k = rng.random()
+    if k < 0.6:
+        return 'm%d.%s.N' % (rng.choice([0, 2, 2, 3, 4]), 'N' if (mt := rng.choice(FOREIGN_TIMES)) is None else mt)
+    if k < 0.7:
+        return 'm1.N.N'
+    if k < 0.8:
+        return 'pX.A'
+    if k < 0.95:
+        return 'pA.%d' % rng.choice(SYS_NS)
+    return 'pA.A'
+
+
+def timed_token(rng, t):
+    """A message whose P1 time is t, by members."""
+    k = rng.random()
+    if k < 0.5:      # details.p1_time filled in, measurement time in another clock
+        return 'm%d.%s.%s' % (rng.choice([0, 2, 3, 4]), 'N' if (mt := rng.choice(FOREIGN_TIMES)) is None else mt, t)
+    if k < 0.7:      # the measurement time is the P1 time
+        return 'm1.%s.N' % t
+    if k < 0.8:
+        return 'm1.%s.%s' % (t, t)
+    return 'p%s.A' % t
+
+
+def concretise(rng, seq, p_ts=0.1, p_fields=P_FIELDS):
     out = []
     for tok in seq:
         if tok == 'U':
-            tok = rng.choice('busn')
+            tok = untimed_token(rng) if rng.random() < p_fields else rng.choice('busn')
+        elif rng.random() < p_fields:
+            tok = timed_token(rng, tok)
         if rng.random() < p_ts:
             tok = 't' + tok
         out.append(tok)
@@ -425,10 +768,10 @@ def seq_case(ctx, batch, ctor, events):
     bits, err = run_real(r, events)
     data = {'kind': 'seq', 'ctor': ctor, 'events': events}
     if err is not None:
-        ctx.violation('C13/is_in_range/raised', 'TimeRange(%s) on %s: %s' % (ctor, events, err), data)
+        ctx.violation(err_sig(err), 'TimeRange(%s) on %s: %s' % (ctor, events, err), data)
         return
     st = state_str(r)
-    idx = [batch.ask('trange %s %s' % (dctor(ctor), ','.join(events) or '='))]
+    idx = [batch.ask('trange %s %s' % (dctor(ctor), ','.join(dev(e) for e in events) or '='))]
     idx += [batch.ask(l) for l in spec_lines(ctor, events)]
     batch.todo.append((judge_seq, idx, (data, bits, st)))
 
@@ -451,8 +794,9 @@ def judge_seq(ctx, outs, payload):
                     'final_state': st})
     if bits != want:
         sig, k = classify(ctor, events, bits, want)
+        objs = objects_text(events)
         ctx.violation(sig, 'TimeRange(%s) on [%s] gives %s, the interval semantics give %s (first difference at message %d; '
-                      'times in quarter seconds)' % (ctor, ','.join(events), bits, want, k), data)
+                      'times in quarter seconds)%s' % (ctor, ','.join(events), bits, want, k, '; with ' + objs if objs else ''), data)
 
 
 # ---- intersect / make_absolute -----------------------------------------------------------------------------
@@ -527,7 +871,7 @@ def inter_case(ctx, batch, ca, cb, in_place, seqs):
         bb, e2 = run_real(rb, seq)
         br, e3 = run_real(rr, seq)
         if e1 or e2 or e3:
-            ctx.violation('C13/is_in_range/raised', str(e1 or e2 or e3), dict(data, seq=seq))
+            ctx.violation(err_sig(e1 or e2 or e3), str(e1 or e2 or e3), dict(data, seq=seq))
             return
         want = ''.join('1' if x == '1' and y == '1' else '0' for x, y in zip(ba, bb))
         ctx.count('intersect_seq_checked')
@@ -585,7 +929,7 @@ def mkabs_case(ctx, batch, ctor, p, in_place, seqs):
         b0, e0 = run_real(r0, seq)
         b1, e1 = run_real(r1, seq)
         if e0 or e1:
-            ctx.violation('C13/is_in_range/raised', str(e0 or e1), dict(data, seq=seq))
+            ctx.violation(err_sig(e0 or e1), str(e0 or e1), dict(data, seq=seq))
             return
         if b0 != b1:
             ctx.violation('C13/make_absolute/accepted-set-differs', 'TimeRange(%s) gives %s on [%s]; after make_absolute(%s) = %s it gives %s' % (
@@ -609,7 +953,7 @@ def mkabs_case(ctx, batch, ctor, p, in_place, seqs):
 #     interval's verdicts on `pa + s`.
 
 def plain(events):
-    return [ev[1:] if ev.startswith('t') else ev for ev in events if ev != 'R']
+    return [spec_tok(bare(ev)) for ev in events if ev != 'R']
 
 
 def is_monotone(events):
@@ -687,7 +1031,7 @@ def script_case(ctx, batch, d):
     if err is None and B is not None:
         _, err = run_real(B, d['pb'])
     if err is not None:
-        ctx.violation('C13/is_in_range/raised', '%s: %s' % (text, err), d)
+        ctx.violation(err_sig(err), '%s: %s' % (text, err), d)
         return
     ia, oa = expected_interval(ca), known_origin(ca, pa)
     ctx.count('script_' + op)
@@ -773,7 +1117,7 @@ def script_case(ctx, batch, d):
         R.restart()
     bits, err = run_real(R, s)
     if err is not None:
-        ctx.violation('C13/is_in_range/raised', '%s, then [%s]: %s' % (text, ','.join(s), err), d)
+        ctx.violation(err_sig(err), '%s, then [%s]: %s' % (text, ','.join(s), err), d)
         return
     batch.todo.append((judge_state, [batch.ask(mline)], ('script', d, ('r' if d['restart'] else '') + bits + '|' + state_str(R))))
     if op in ('copy', 'deepcopy') and not d['restart']:
@@ -825,6 +1169,156 @@ def judge_script(ctx, outs, payload):
         ctx.violation(sig + ('/after-history' if (d['pa'] or d.get('pb')) else '') + ('' if fresh else '/continued'),
                       '%s = %s, then on [%s] gives %s; the interval semantics give %s (%s; quarter seconds)' % (
                           text, got_state, ','.join(d['s']), bits, want, how), d)
+
+
+# ---- the time accessors on real messages ---------------------------------------------------------------------
+
+def member_tokens(deep):
+    """Every combination of time members: for a sensor measurement every measurement_time_source x measurement_time
+    unset / set (several values) x details.p1_time unset / set; for other payloads p1_time absent / invalid / set,
+    system_time_ns absent / set."""
+    p1s = [0, 8, 12] if not deep else [0, 4, 8, 12, 40]
+    mts = [1, 8, 20000] if not deep else [0, 1, 8, 9, 20, 20000]
+    res = ['b', 'u', 's', 'n']
+    for src in range(5):
+        res.append('m%d.N.N' % src)
+        for mt in mts:
+            res.append('m%d.%d.N' % (src, mt))
+            for p1 in p1s:
+                res.append('m%d.%d.%d' % (src, mt, p1))
+        for p1 in p1s:
+            res.append('m%d.N.%d' % (src, p1))
+    for p1 in p1s:
+        res += [str(p1), 'p%d.A' % p1, 'p%d.3000000000' % p1]
+    res += ['pX.A', 'pA.A'] + ['pA.%d' % v for v in SYS_NS]
+    return res
+
+
+def kind_of(tok):
+    d = parse_tok(tok)
+    if d[0] == 'meas':
+        return 'measurement-%s-time-%s-p1-%s' % (SRC_NAMES[d[1]].lower().replace('_', '-'), 'unset' if d[2] is None else 'set',
+                                               'unset' if d[3] is None else 'set')
+    if d[0] == 'raw':
+        return 'raw'
+    return 'payload-p1-%s-system-time-%s' % ({'A': 'absent', None: 'invalid'}.get(d[1], 'set'), 'absent' if d[2] == 'A' else 'set')
+
+
+def accessor_case(ctx, batch, tok, variant):
+    """get_p1_time() / get_system_time_ns() / get_system_time_sec() of one real object against the model of the
+    accessors and against the documentation of the members."""
+    data = {'kind': 'accessor', 'tok': tok, 'variant': variant}
+    m = message_for(tok, variant)
+    text = describe(tok, variant)
+    if parse_tok(tok)[0] == 'raw':
+        return
+    try:
+        got = real_p1(m)
+        raw_p1 = m.get_p1_time()
+        sy = m.get_system_time_ns()
+        sec = m.get_system_time_sec()
+    except Exception as e:  # noqa
+        ctx.violation('C13/message-time/raised-' + type(e).__name__, '%s: the time accessors raised %s' % (text, e), data)
+        return
+    ctx.case('accessor %s %d' % (tok, variant % n_variants(tok)), nontrivial=True)
+    ctx.count('accessor_' + parse_tok(tok)[0])
+    gsys = None if sy is None or (isinstance(sy, float) and math.isnan(sy)) else float(sy)
+    # the model's answer
+    mp1 = 'none' if raw_p1 is None else 'invalid' if got is None else str(got)
+    if sy is None:
+        msys = 'none'
+    elif isinstance(sy, float) and math.isnan(sy):
+        msys = 'nan'
+    elif parse_tok(tok)[0] == 'meas':
+        q = float(sy) / 1e9 * 4
+        msys = 't%d' % q if q == int(q) and int(q) * Q * 1e9 == float(sy) else 'inexact(%r)' % sy
+    else:
+        msys = 'ns%d' % sy if sy == int(sy) else 'inexact(%r)' % sy
+    batch.todo.append((judge_accessor, [batch.ask('trmsg ' + tok)], (data, text, mp1, msys)))
+    # the documentation
+    cand = candidates(tok)
+    if cand is None:
+        want = doc_p1(tok)
+        if got != want:
+            what = 'p1-time-for-message-without' if want is None else 'no-p1-time-for-p1-timed-message' if got is None else 'wrong-p1-time'
+            ctx.violation('C13/message-time/get_p1_time/%s/%s' % (what, kind_of(tok)),
+                          '%s: get_p1_time() gives %s, the P1 time of the message is %s (quarter seconds; None = no P1 time). '
+                          'is_in_range() treats the message accordingly' % (text, got, want), data)
+    elif got not in cand:
+        ctx.violation('C13/message-time/get_p1_time/not-a-p1-member/' + kind_of(tok),
+                      '%s: get_p1_time() gives %s, which is neither of the P1 members %s' % (text, got, list(cand)), data)
+    wsys = doc_sys_ns(tok)
+    if gsys != wsys:
+        ctx.violation('C13/message-time/get_system_time_ns/%s/%s' % ('system-time-for-message-without' if wsys is None else
+                                                                       'no-system-time' if gsys is None else 'wrong-system-time', kind_of(tok)),
+                      '%s: get_system_time_ns() gives %r, the system time of the message is %r ns' % (text, sy, wsys), data)
+    gsec = None if sec is None or (isinstance(sec, float) and math.isnan(sec)) else float(sec)
+    if (gsec is None) != (wsys is None) or (gsec is not None and abs(gsec - wsys * 1e-9) > 1e-6 * max(1.0, abs(gsec))):
+        ctx.violation('C13/message-time/get_system_time_sec/' + kind_of(tok),
+                      '%s: get_system_time_sec() gives %r, the system time of the message is %r ns' % (text, sec, wsys), data)
+
+
+def judge_accessor(ctx, outs, payload):
+    data, text, mp1, msys = payload
+    ctx.cov['traces_validated_against_impl'] += 1
+    f = outs[0].split('|')
+    if len(f) != 5:
+        raise fv.InfraError('trmsg answered %r' % outs[0])
+    if f[0] != mp1 or f[1] != msys:
+        ctx.disagree('time accessors of %s: impl get_p1_time=%s get_system_time_ns=%s, model %s %s' % (text, mp1, msys, f[0], f[1]), data)
+    # the harness's reading of the documentation is the Lean specification's (Obj.docP1, Obj.docSys, Obj.unambiguous)
+    tok = data['tok']
+    wsys = doc_sys_ns(tok)
+    d = parse_tok(tok)
+    mine = '%s|%s|%d' % ('N' if doc_p1(tok) is None else doc_p1(tok),
+                         'none' if wsys is None else ('t%d' % d[2] if d[0] == 'meas' else 'ns%d' % d[2]), 1 if candidates(tok) is None else 0)
+    if candidates(tok) is None and '|'.join(f[2:]) != mine:
+        raise fv.InfraError('documented times of %s: harness %s, Lean specification %s' % (tok, mine, '|'.join(f[2:])))
+    if candidates(tok) is not None and f[4] != '0':
+        raise fv.InfraError('members of %s: contradictory for the harness, consistent for the Lean specification' % tok)
+
+
+def member_sequences(ctx, batch, rng, deep):
+    """Every kind of message (by members) x every class of the package that can carry those members, (a) through the
+    accessors, (b) mixed with ordinary P1-timed messages under relative and absolute ranges: the message before the
+    first P1 time, between P1 times and after them; a P1-timed one takes the place of a P1 time."""
+    toks = member_tokens(deep)
+    ctx.count('member_configurations', len(toks))
+    for tok in toks:
+        for v in range(n_variants(tok)):
+            accessor_case(ctx, batch, tok, v)
+    ranges = ['4,12,0,N', '0,8,0,N', 'N,8,0,N', '4,N,0,N', '4,12,0,8', '4,12,0,0',
+              '12,20,1,N', 'T12,T20,N,N', 'N,16,1,N', '12,N,1,N', '12,20,1,8', 'N,N,1,N', 'N,N,0,N']
+    if deep:
+        ranges += ['6,8,0,N', '8,16,0,4', '0,4,0,N', '9,13,1,N', 'N,12,1,0', '16,inf,1,N']
+    grids = [(8, 12, 16, 24)] if not deep else [(8, 12, 16, 24), (0, 4, 12, 12), (8, 8, 20, 28)]
+    for tok in toks:
+        if parse_tok(tok)[0] == 'raw':
+            continue
+        nv = n_variants(tok)
+        own = p1_reading(tok)
+        for a, b, c, d in grids:
+            if own is None:
+                X = tok
+                shapes = [[X, str(a), str(b), str(c), str(d)], [str(a), X, str(b), str(c), X, str(d)], [str(a), str(b), str(c), X, str(d), X],
+                          [X, X, str(b), X, str(d)]]
+            else:
+                # the message is P1-timed at `own`: put it where its time keeps the sequence monotone
+                lo = [t for t in (a, b, c, d) if t < own]
+                hi = [t for t in (a, b, c, d) if t >= own]
+                shapes = [[str(t) for t in lo] + [tok] + [str(t) for t in hi],
+                          [str(t) for t in lo] + ['u', tok, 'u'] + [str(t) for t in hi],
+                          [tok] + [str(t) for t in hi] if not lo else [str(t) for t in lo] + [tok, tok]]
+            for shape in shapes:
+                for ctor in ranges:
+                    # every class / construction of the kind (thorough), a few drawn ones (quick; all over the run)
+                    for k in (range(nv) if deep else rng.sample(range(nv), min(nv, 2))):
+                        ev = [e + '#%d' % k if e == tok else e for e in shape]
+                        if rng.random() < 0.15:
+                            i = rng.randrange(len(ev))
+                            ev[i] = 't' + ev[i]
+                        seq_case(ctx, batch, ctor, ev)
+    batch.flush(ctx)
 
 
 # ---- parse -------------------------------------------------------------------------------------------------
@@ -921,10 +1415,10 @@ def parse_case(ctx, batch, s, a, seqs):
         rr = copy.deepcopy(r)
         bits, err = run_real(rr, seq)
         if err:
-            ctx.violation('C13/is_in_range/raised', err, dict(data, seq=seq))
+            ctx.violation(err_sig(err), err, dict(data, seq=seq))
             return
         f = first_p1(seq)
-        idx.append(batch.ask('trangespec %s,%s,%d,%s %s' % (st, en, 1 if absolute else 0, 'N' if f is None else f, ','.join(seq) or '=')))
+        idx.append(batch.ask('trangespec %s,%s,%d,%s %s' % (st, en, 1 if absolute else 0, 'N' if f is None else f, ','.join(plain(seq)) or '=')))
         realbits.append((seq, bits))
     batch.todo.append((judge_parse, idx, (data, got, want, realbits)))
 
@@ -1123,6 +1617,8 @@ def run(ctx, wide=False):
     ctx.count('ctor_configs', len(ctors))
     ctx.count('monotone_sequences', len(seqs))
     short = [s for s in seqs if len(s) <= 3]
+    # (0) real messages of every kind and class: the accessors, and each kind mixed with ordinary P1-timed messages
+    member_sequences(ctx, batch, rng, deep)
     # (1) every constructor configuration x every monotone sequence
     for ctor in ctors:
         for seq in seqs:
@@ -1206,6 +1702,16 @@ def run(ctx, wide=False):
         for a in 'N01':
             parse_case(ctx, batch, s, a, rng.sample(pseqs, 5 if deep else 3))
     batch.flush(ctx)
+    check_unmodified(ctx)
+
+
+def check_unmodified(ctx):
+    for tok, k, how, now in messages_unmodified():
+        ctx.violation('C13/is_in_range/modifies-message', '%s built with members %r now has %r' % (how, parse_tok(tok), now),
+                      {'kind': 'accessor', 'tok': tok, 'variant': k})
+    ctx.count('message_objects_built', len(_catalogue()['objects']))
+    for kind, classes in _catalogue()['classes'].items():
+        ctx.cov['input_distribution']['payload_classes_' + kind] = len(classes)
 
 
 def search(ctx):
@@ -1217,7 +1723,15 @@ def check(ctx):
         'every constructor configuration (start, end over None/0/fractions/inf/Timestamp/invalid Timestamp; absolute None/False/True; '
         'p1_t0 None/values) x every message sequence up to length 5 (quick) / 6 (thorough) over '
         '{no P1 time: raw bytes, payload without P1 time, system-timed payload, payload with invalid P1 time} + P1 times from a grid with '
-        'repeats, non-decreasing; restart() between independently monotone segments (exhaustive to total length 3, sampled beyond); '
+        'repeats, non-decreasing; every message is a REAL object of the package described by its time members and built as each payload '
+        'class that can carry them (all classes embedding MeasurementDetails; all with a p1_time member; all with system_time_ns; all '
+        'with neither), directly or decoded from its packed form: sensor measurements over every measurement_time_source x '
+        'measurement_time unset/set (clock values before, among and far beyond the P1 times) x details.p1_time unset/set, payloads with '
+        'p1_time absent/None/invalid/set, system_time_ns absent/set, gps_time set. Whether a message counts as P1-timed(t), system-timed '
+        'or untimed is read off the members as documented (harness doc_p1 = Lean Obj.docP1), the Lean model is given the members and '
+        'applies its model of get_p1_time(); get_p1_time()/get_system_time_ns()/get_system_time_sec() and the tuple of '
+        'return_timestamps=True are compared with both for every class x member combination, and every member combination is run '
+        'before/between/after ordinary P1 times under relative and absolute ranges; restart() between independently monotone segments (exhaustive to total length 3, sampled beyond); '
         'random sequences of 7-30 messages; all ordered pairs of a range pool for intersect(), each result run on monotone sequences; '
         'make_absolute over pool x t0 argument; parse over START x END x type strings (incl. exponent, blank-padded, digit-separator and '
         'infinity spellings). The same requested values in every spelling - each bound as float / int / numpy.float64 / float32 / int64 / '
@@ -1247,6 +1761,11 @@ def check(ctx):
         'unchanged (make_absolute, copies, intersect with a range without bounds); narrowing a range in the middle of a pass is '
         'exercised for model correspondence only - the property does not say which latches it keeps',
         'bound spellings are the declared ones (float, Timestamp, None) and what converts to float exactly (int, numpy scalars)',
+        'the P1 time of a message is what the documentation of its members says: the p1_time member; for a sensor measurement '
+        'details.p1_time, else details.measurement_time when measurement_time_source is P1_TIME. Where the members contradict each other '
+        '(source P1_TIME and a details.p1_time that differs from measurement_time, incl. an invalid measurement_time) the documentation '
+        'names no single P1 time: get_p1_time() must return one of the two P1 members and is_in_range is judged with that reading; '
+        'None and NaN both count as "no system time"',
     ]
     ctx.prove(MODULES)
     try:
@@ -1272,6 +1791,8 @@ def replay(ctx, path):
         parse_case(ctx, batch, d['string'], d['absolute'], [d['seq']] if 'seq' in d else [])
     elif k == 'script':
         script_case(ctx, batch, d)
+    elif k == 'accessor':
+        accessor_case(ctx, batch, d['tok'], d['variant'])
     else:
         raise fv.InfraError('replay file has no recognised input kind')
     batch.flush(ctx)
